@@ -80,7 +80,7 @@ def handleGnp : P String := do
   let pnum ← P.next
   let pden ← P.nat
   let directed ← P.bool
-  let _seed ← P.nat
+  let _seed ← P.next
   let skips ← P.listOf P.next
   let rest ← get
   let pInvalid := pnum ≤ 0 || pnum ≥ (pden : Int)
